@@ -60,6 +60,15 @@ def abs_quantise_note_lengths (e : Env) (a : List Msg) (values : Option (List In
 def abs_get_sequence_duration (_ : Env) (a : List Msg) : Except Err (List Msg × Int) := do
   let d ← absDuration a
   .ok (a, d)
+/-- `AbsoluteSequence.is_channel_consistent()`: every channel equals the first one (= the translation, `ViewTie.isChannelConsistent_eq`) -/
+def abs_is_channel_consistent (_ : Env) (a : List Msg) : Except Err (List Msg × Bool) :=
+  .ok (a, a.all (fun m => m.ch == (a.headD default).ch))
+/-- `AbsoluteSequence.get_sequence_channel()`: the first channel if all agree, `SequenceException` otherwise, `IndexError` on the empty
+    list (= the translation, `ViewTie.getSequenceChannel_eq`) -/
+def abs_get_sequence_channel (_ : Env) (a : List Msg) : Except Err (List Msg × Int) :=
+  if a.all (fun m => m.ch == (a.headD default).ch) then
+    (match a.head? with | some m => .ok (a, m.ch) | none => .error .indexError)
+  else .error .sequenceError
 /-- `RelativeSequence.is_empty()`: no note-on -/
 def rel_is_empty (_ : Env) (r : List Msg) : Except Err (List Msg × Bool) := .ok (r, !(r.any (·.ty == .noteOn)))
 
